@@ -16,7 +16,7 @@ type XSyn struct {
 }
 
 var synIdents = []string{"a", "b", "c", "x", "y", "n", "s", "m", "arr", "f", "g", "foo", "bar", "err", "ok", "T", "p", "ch"}
-var synTypes = []string{"int", "string", "bool", "float64", "[]int", "map[string]int", "*T", "T", "[]string", "func(int) int", "chan int", "interface{}", "[3]int", "struct{ a int }", "error", "any", "[]*T", "map[string][]int", "<-chan int", "chan<- string", "func()", "func(a, b int) (int, error)"}
+var synTypes = []string{"int", "string", "bool", "float64", "[]int", "map[string]int", "*T", "T", "[]string", "func(int) int", "chan int", "interface{}", "[3]int", "struct{ a int }", "error", "any", "[]*T", "map[string][]int", "<-chan int", "chan<- string", "<-chan<- chan int", "chan<- chan int", "<-chan (<-chan int)", "chan (<-chan int)", "chan<- <-chan int", "<-chan chan<- *T", "func()", "func(a, b int) (int, error)"}
 var synBinOps = []string{"+", "-", "*", "/", "%", "&", "|", "^", "<<", ">>", "&^", "&&", "||", "==", "!=", "<", "<=", ">", ">="}
 var synUnOps = []string{"-", "+", "!", "^", "&", "<-", "*"}
 
@@ -99,7 +99,7 @@ func (g *XSyn) Expr(depth int) string {
 	case 19:
 		return "new(" + g.typ() + ")"
 	case 20:
-		return "make(" + fw.Pick(r, []string{"[]int", "map[string]int", "chan int"}) + ", " + g.Expr(d) + ")"
+		return "make(" + fw.Pick(r, []string{"[]int", "map[string]int", "chan int", "<-chan<- chan int", "chan<- <-chan int"}) + ", " + g.Expr(d) + ")"
 	case 21:
 		return "<-" + g.id()
 	// ---- XGo only ----
